@@ -414,10 +414,6 @@ def claim_of(z: bytes, u: bytes, p: bytes) -> list[str]:
     return [b2s(z), b2s(u), b2s(p)]
 
 
-def fits_plain(z: bytes, u: bytes, p: bytes) -> bool:
-    return len(z) + len(u) + len(p) < 44_000
-
-
 def gen_plain(rng: random.Random, pw: dict[str, str | None],
               sieve: bool) -> dict[str, Any]:
     sp = rng.choice(['cont', 'cont', 'cont', 'pipelined', 'ir'])
@@ -440,6 +436,12 @@ def gen_plain(rng: random.Random, pw: dict[str, str | None],
             claim = None        # RFC 4616: authcid is 1*SAFE
         return att('plain', fl, line=b2s(plain_line(z, u, p)), claim=claim,
                    sp=sp, mech=mech)
+    if sieve and r < 0.635:
+        # not a string at all (the cancel token is the *string* "*")
+        return att('plain', 'response-not-a-string',
+                   line=rng.choice(['*', 'AGJvYgBwd0I=', '(', 'NIL', '{3}',
+                                    '"unterminated', '\\']),
+                   claim=None, sp='cont-raw', mech=mech)
     if r < 0.70:
         return att('plain', 'cancel', line='*', claim=None, cancel=True,
                    sp='cont-q' if sieve and sp.startswith('ir') else
@@ -548,6 +550,13 @@ def gen_login(rng: random.Random, pw: dict[str, str | None]) \
     if fl in ('8bit-user', '8bit-pw', 'nul-user', 'nul-pw') and \
             rng.random() < 0.3:
         sp = 'rawq'
+    if fl.startswith('oversized') and rng.random() < 0.5:
+        # up to 60 KiB: literals do not count against the line limit
+        sp = rng.choice(['lit', 'lit+'])
+        if fl == 'oversized-user':
+            u += b'a' * 16_000
+        else:
+            p += b'x' * 16_000
     return att('login', fl, u=b2s(u), p=b2s(p), sp=sp,
                claim=claim_of(b'', u, p),
                case=rng.choice(['LOGIN'] * 5 + ['login', 'Login']))
@@ -997,6 +1006,8 @@ def sieve_wire(a: dict[str, Any]) -> tuple[bytes, list[bytes], bool]:
         head = b'AUTHENTICATE ' + sieve_str(mech, 'x-q')
         if sp.startswith('ir') and lines and lines[0] != b'*':
             head += b' ' + sieve_str(lines.pop(0), sp)
+        if sp == 'cont-raw':
+            return head + CRLF, [ln + CRLF for ln in lines], True
         return head + CRLF, [sieve_str(ln, sp) + CRLF for ln in lines], True
     if k in ('rawcmd', 'loginraw'):
         return s2b(a['line']) + CRLF, [], False
@@ -1522,10 +1533,10 @@ class Run:
                 raise Stop()
         else:
             md = (seed >> 3) % 3
-            c = Conn(1, Sched(seed, max_delay=(0, 0, 3)[md],
-                              max_drain=(0, 2, 2)[md]), peer=peer)
-            cl = Imap(c)
-            c.start(self.env.imap)
+            ic = Conn(1, Sched(seed, max_delay=(0, 0, 3)[md],
+                               max_drain=(0, 2, 2)[md]), peer=peer)
+            cl = Imap(ic)
+            ic.start(self.env.imap)
             if await cl.greeting() is None:
                 self.aborted = 'greeting-failed'
                 raise Stop()
@@ -1626,6 +1637,14 @@ SCRIPTS: dict[str, dict[str, Any]] = {
     'sasl-response-not-utf8-sieve': dict(_BASE, listener='sieve', attempts=[
         att('plain', '8bit-response', line=b2s(B64(b'\0bo\xffb\0pwB')),
             claim=None, sp='ir-q', mech='PLAIN')]),
+    'sieve-sasl-initial-response-bad-base64': dict(
+        _BASE, listener='sieve', attempts=[
+            att('plain', 'bad-b64', line='A', claim=None, sp='ir-q',
+                mech='PLAIN')]),
+    'sieve-sasl-response-not-a-string': dict(
+        _BASE, listener='sieve', attempts=[
+            att('plain', 'response-not-a-string', line='*', claim=None,
+                sp='cont-raw', mech='PLAIN')]),
     # sanity scripts (must hold)
     'authzid-non-admin': dict(_BASE, attempts=[
         _plain('alice', 'bob', 'pwB', 'authzid-nonadmin')]),
@@ -1666,18 +1685,25 @@ class C09(Check):
         'glass_unavailable is counted and only the wire decides',
         'ManageSieve on maildir keeps one fixed-name script: the marker is '
         'in the script body and read back with GETSCRIPT']
-    floors = {'attempts_judged': 9000, 'identity_probes': 12000,
-              'successes': 1500, 'valid_accepted': 1200,
-              'failures_judged_unauthenticated': 4000,
-              'post_success_attempts': 1500, 'logindisabled_refusals': 60,
-              'mech_not_advertised_refusals': 300, 'cancels_judged': 300,
-              'authzid_nonadmin_judged': 150, 'admin_authzid_judged': 100,
-              'glass_authenticate_calls': 3000, 'bystander_probes': 4000,
-              'k_login': 1200, 'k_plain': 2500, 'k_authlogin': 1200}
+    #: sized at about a third of what a full quick run observes, so that a
+    #: loaded machine (cases skipped at the time cap) still decides
+    floors = {'attempts_judged': 15000, 'identity_probes': 28000,
+              'successes': 3500, 'valid_accepted': 3300,
+              'failures_judged_unauthenticated': 5500,
+              'post_success_attempts': 3800, 'logindisabled_refusals': 400,
+              'mech_not_advertised_refusals': 1800, 'cancels_judged': 800,
+              'cancels_left_unauthenticated': 500,
+              'authzid_nonadmin_judged': 280, 'admin_authzid_judged': 400,
+              'admin_authzid_honoured': 120,
+              'glass_authenticate_calls': 5000, 'bystander_probes': 8500,
+              'k_login': 3300, 'k_plain': 5500, 'k_authlogin': 2900,
+              'attempts_sieve': 4500, 'attempts_maildir': 3000,
+              'attempts_tls': 7500, 'attempts_peer_remote': 7000,
+              'attempts_with_invalid_user_sleep': 2000}
     time_cap = {'quick': 60.0, 'thorough': 600.0}
 
     def cases(self, tier: str, seed: int) -> Iterable[dict[str, Any]]:
-        n = 14000 if tier == 'quick' else 180000
+        n = 12000 if tier == 'quick' else 180000
         rng = random.Random(seed * 9176 + 9)
         for i in range(n):
             yield {'seed': seed * 1_000_003 + i,
